@@ -98,8 +98,20 @@ def check_case(case):
         for c in spec["comps"]:
             c["n"] = ren.get(c["n"], c["n"])
             c["p"] = [ren.get(q, q) for q in c["p"]]
+    elif fam == "e2seed":   # the seed states of the edit explorer (PMux at node index 0, freed indices, by-rail mux, hand-over, blank names ...)
+        from .. import e2
+        s, _g = e2.replay(case["seed"], case.get("hist", []))
+        a = all_reports(s, REPORTS)
+        s2, doc, path = roundtrip(res, s, "e2")
+        if s2 is not None:
+            for rep, d in diff_reports(a, all_reports(s2, REPORTS), 1e-9, 1e-12)[:4]:
+                res.v(("C12.roundtrip-differs", rep, "e2seed", case["seed"]), "%s" % d)
+        res.nontrivial = 1
+        res.classes.add("e2seed")
+        return res
     elif fam == "version":
         spec = kind_spec("Converter", dict(vo=3.3, eff=0.9), True)
+        spec["comps"][0]["pc"] = ["a"]     # the source, the converter and a load carry phase configurations
     s = build_holes(spec) if case.get("holes") else build(spec)
     if case.get("delete"):   # the intermediate element of one mux input is deleted (del_childs=False): its feeder takes its slot; THEN the system is saved
         from .c05 import spec_without
@@ -130,8 +142,11 @@ def check_case(case):
             with open(path, "w") as f:
                 json.dump(doc2, f)
             try:
-                quiet_call(System.from_file, path)
+                sv, _ = quiet_call(System.from_file, path)
                 out = "loaded"
+                # a file of the same or an older release loads into the SAME system
+                for rep, d in diff_reports(all_reports(s, REPORTS), all_reports(sv, REPORTS), 1e-9, 1e-12)[:3]:
+                    res.v(("C12.older-version-file-differs", label, rep), "file labelled %s: %s" % (doc2["system"]["version"], d))
             except ValueError:
                 out = "ValueError"
             except Exception as e:
@@ -244,8 +259,13 @@ def gen_cases(tier):
             if k == 2:
                 yield dict(fam="mux", inputs=[list(x) for x in inputs], pal=pal, rs_list=False, rails=False, order=None, remux=True)
                 yield dict(fam="mux", inputs=[list(x) for x in inputs], pal=pal, rs_list=False, rails=False, order=None, remux=True, below="none")
-    for src, comp in (("system", "X"), ("S", "system"), ("type", "params"), ("childs", "limits"), ("S", "parents")):
+    for src, comp in (("system", "X"), ("S", "system"), ("type", "params"), ("childs", "limits"), ("S", "parents"),
+                      ("Batt [ 2S ]", "Buck [ 1V8 ]"), ("in,  out", "a ,b"), ("[1, 2]", "{x: [ 1 ]}"), ("S\"q", "tab\there"), ("Größe µ", "  ")):
         yield dict(fam="names", source=src, comp=comp)
+    from .. import e2
+    for sd in e2.SEEDS:
+        yield dict(fam="e2seed", seed=sd)
+        yield dict(fam="e2seed", seed=sd, hist=[["sp", [["p [ 1 ]", 1.0], ["q,  r", 2.0]]]])
     yield dict(fam="version")
 
 
